@@ -140,6 +140,11 @@ func envTextFor(r *Rng, o *OptSpec) string {
 		if baseKind(k) == "string" && !isMapKind(k) && len(o.Choices) == 0 && r.Chance(1, 8) {
 			return r.Pick([]string{" lead", "trail ", " both ", "\ttab", "in ner", " "}) // blanks are part of an environment value
 		}
+		if baseKind(k) == "string" && !isMapKind(k) && len(o.Choices) == 0 && r.Chance(1, 8) {
+			// quote characters in an environment value are ordinary characters; so is a
+			// comma where no env-delim is declared
+			return r.Pick([]string{"\"on\"", "\"a b\"", "\"tab\\there\"", "a.example,b.example", "x,y,z", "\"\""})
+		}
 		if baseKind(k) == "string" && !isMapKind(k) && o.EnvDelim != "" && len(o.Choices) == 0 && r.Chance(1, 8) {
 			return r.Pick(plainWords) + "\\" // a backslash in front of the delimiter is an ordinary character
 		}
@@ -274,8 +279,8 @@ func (propC05) Gen(r *Rng, idx int, tier string) *Scenario {
 				val := iniValText(sr, o)
 				if isFuncKind(o.Kind) {
 					val = strings.TrimSpace(envTextFor(sr, &OptSpec{Kind: o.Kind, Choices: o.Choices})) // (blanks around an INI value are not part of it)
-					if val == "" {
-						val = "x"
+					if val == "" || strings.ContainsAny(val, "\"\\") {
+						val = "x" // (quotes and backslashes have a meaning of their own in an INI value)
 					}
 				}
 				if o.Kind == "string" && len(o.Choices) == 0 && sr.Chance(1, 10) {
